@@ -449,7 +449,8 @@ def gen_cases(tier: str, seed: int) -> List[Dict]:
     ]
     for src in ("c09", "c10"):
         mod = importlib.import_module("nv.checks." + src)
-        cs = [c for c in mod.gen_cases(tier, seed) if c["fn"] != "special"]  # (the native special-value cases have their own driver)
+        # (the native special-value cases have their own driver; dtype= is a keyword of one spelling only)
+        cs = [c for c in mod.gen_cases(tier, seed) if c["fn"] != "special" and not (c.get("par") or {}).get("dtype")]
         byfn: Dict[str, List[Dict]] = {}
         for c in cs:
             byfn.setdefault(c["fn"], []).append(c)
